@@ -31,6 +31,7 @@ type Inst struct {
 	events   []Ev
 	LogHooks bool
 	OnHook   func(point string, a, b, c int64) Ev // optional: event to log for a hook (called under the instance lock)
+	Perturb  func(point string)                   // optional: called at every hook point outside the instance lock (seeded yields / sleeps)
 	Stuck    bool                                 // a wait timed out: scenario is inconclusive
 	owners   []uintptr
 }
@@ -155,6 +156,9 @@ func (in *Inst) at(point string, a, b, c int64) {
 	}
 	in.cond.Broadcast()
 	in.mu.Unlock()
+	if in.Perturb != nil {
+		in.Perturb(point)
+	}
 	if ch != nil {
 		select {
 		case <-ch:
